@@ -195,28 +195,33 @@ def template(ctx: Ctx, rep: Report) -> None:
             key='target',
         )
         g = ctx.cfg(run_)
-        tests = [t for t in g.nodes if t.kind == 'test' and norm(
-            t.stmt.test) in (f'isinstance(op.gate, {src})',
-                             f'isinstance(op.gate, {alias.get(src, src)})',
-                             'isinstance(op.gate, CXGate)' if src == 'CNOTGate'
-                             else '')]
-        apps = [x for x in g.nodes if any(
-            norm(cc.func).endswith('_points.append') or norm(
-                cc.func) == 'points.append' for cc in x.calls())]
+        # (the engine reads `x = []; for ...: if c: x.append(e)` and
+        # `x = [e for ... if c]` as the same comprehension)
+        want = {f'isinstance(op.gate, {src})',
+                f'isinstance(op.gate, {alias.get(src, src)})'} | (
+            {'isinstance(op.gate, CXGate)'} if src == 'CNOTGate' else set())
+        colls = [
+            a for a in ast.walk(run_.node) if isinstance(a, ast.Assign)
+            and isinstance(a.targets[0], ast.Name)
+            and isinstance(a.value, ast.ListComp)
+            and len(a.value.generators) == 1
+            and norm(a.value.generators[0].iter) == (
+                'circuit.operations_with_cycles()')]
+        ok_c = len(colls) == 1
+        pts = None
+        if ok_c:
+            gen = colls[0].value.generators[0]
+            pts = colls[0].targets[0].id
+            ok_c = len(gen.ifs) == 1 and norm(gen.ifs[0]) in want and norm(
+                gen.target) == '(cycle, op)' and norm(
+                colls[0].value.elt) == '(cycle, op.location[0])'
         rep.check(
-            len(tests) == 1 and len(apps) == 1 and g.edge_dominates(
-                tests[0].id, 'true', apps[0].id), T, c.name + ':collect',
-            c.path, run_.lineno,
+            ok_c, T, c.name + ':collect', c.path, run_.lineno,
             f'collects exactly the operations whose gate is a {src}',
             f'the collected points are not exactly those with '
             f'isinstance(op.gate, {src})', key='collect',
         )
         t = norm(run_.node)
-        pts = None
-        for a in ast.walk(run_.node):
-            if isinstance(a, ast.Assign) and isinstance(
-                a.value, ast.List) and not a.value.elts:
-                pts = norm(a.targets[0])
         ok = pts is not None and (
             f'for p in {pts}]' in t
             and f'circuit.batch_replace({pts}, ops)' in t
